@@ -32,6 +32,19 @@ def body(chk):
         v = variants[j % len(variants)]
         cases.append(dict(level=v.get("level", "1.5"), seed=chk.seed + 1000 + j, k=j, random_classes=True, leader=v.get("leader"),
                           ctx=v.get("ctx"), files=("LED",), images=(("HV", None, 1, 1),), fs="local", variant=f"r{j % len(variants)}"))
+    # declared-but-informational numbers (FileFormat!Informational: the state-vector count, record sequence numbers) take other
+    # valid values: positions are fixed by the record lengths, so every leaf must read back unchanged
+    for a in range(3):
+        for vi in (0, 2, 7):
+            v = variants[vi]
+            cases.append(dict(level=v.get("level", "1.5"), seed=chk.seed + 300 + a, k=a, leader=v.get("leader"), ctx=v.get("ctx"), files=("LED",),
+                              images=(("HH", None, 2, 2),), fs="local", variant=f"informational{a}/{vi}", informational=a))
+    # platform-position first point: date written as three blank-padded / zero-padded / left-justified I4 integers, seconds of day
+    # with a fractional part in F and E notation
+    for j, (dtxt, sod) in enumerate([("2016   1  21", "45000.500000000000000"), ("2016  01  21", "4.500050000000000E+04"), ("2019  12   1", "86399.999999000000000"),
+                                     ("2020   2  29", "0.000001000000000E+00"), ("2024  11   9", "3599.123456000000000"), ("2016  1   19  ", "1.5")]):
+        cases.append(dict(level="1.5", seed=chk.seed + 400 + j, k=j, ctx=dict(pp_date=dtxt.strip() if len(dtxt) > 12 else dtxt, pp_sod=sod), files=("LED",),
+                          images=(("HH", None, 2, 2),), fs="local", variant=f"first-point{j}"))
     results, total = lc.replay(chk, cases, "leader", lambda c: f"plan={c['k']}{'r' if c.get('random_classes') else ''}:variant={c['variant']}")
     ok = next(r for r in results if r["open"] == "ok")
     chk.sample({"plan": ok["case"]["k"], "variant": ok["case"]["variant"], "leader_fields_compared": ok["n"], "mismatches": ok["bad"][:2]})
